@@ -151,7 +151,7 @@ PredSeens(w, p, signer, ns) ==
 
 GTransact ==
   /\ Started
-  /\ \E s \in {RandomElement(Signers)}, d \in {Pick(<<0, 0, 0, 1, 1, 2, 3, 9, 10, 11>>)}, back \in {Pick(<<0, 0, 0, 1>>)}, to \in {RandomElement(Cells \cup {"dead"})}, ops \in {RandomElement(Progs)}, ch \in {Pick(<<"own", "own", "own", "own", "foreign", "garbage">>)} :
+  /\ \E s \in {RandomElement(Signers)}, d \in {Pick(<<0, 0, 0, 1, 1, 2, 3, 9, 10, 11>>)}, back \in {Pick(<<0, 0, 0, 1>>)}, to \in {RandomElement(Cells \cup {"dead"})}, ops \in {RandomElement(Progs)}, ch \in {Pick(<<"own", "own", "own", "own", "own", "foreign", "garbage", "none">>)} :
        LET an == Nonce(world, s)
            nonce == IF back = 1 /\ an > 0 THEN an - 1 ELSE an + d
            tx == Tx("call", s, to, NULL, ops, NoLc, "ample")
